@@ -27,6 +27,7 @@
 #include <unifex/scheduler_concepts.hpp>
 #include <unifex/sender_concepts.hpp>
 #include <unifex/stream_concepts.hpp>
+#include <unifex/detail/verif_hooks.hpp>
 
 #include <atomic>
 
@@ -108,6 +109,7 @@ struct _stream<Values...>::type final {
   struct next_op_base {
     // last caller owns result delivery by calling set_* on a receiver
     bool complete() noexcept {
+      UNIFEX_VERIF_YIELD("stream.te.complete");
       return refCount_.fetch_sub(1, std::memory_order_acq_rel) == 1;
     }
 
@@ -387,6 +389,7 @@ struct _stream<Values...>::type final {
 
         void request_stop() noexcept {
           // mark callback as running (own set_*)
+          UNIFEX_VERIF_YIELD("stream.te.reqstop");
           if (next_op_base::refCount_.fetch_add(1, std::memory_order_relaxed) ==
               0) {
             // set_* already called
